@@ -1,3 +1,498 @@
 package main
 
-func cmdCheck(args []string) int { return 2 }
+import (
+	"encoding/json"
+	"flag"
+	"fmt"
+	"os"
+	"path/filepath"
+	"runtime/debug"
+	"sort"
+	"strconv"
+	"strings"
+	"time"
+)
+
+type KnownFinding struct {
+	Property   string `json:"property"`
+	Obligation string `json:"obligation"` // obligation name prefix (without @retN)
+	Function   string `json:"function"`
+	Exclude    string `json:"exclude"` // witness class: spec expression over the function's parameters
+	Witness    any    `json:"witness"`
+	Status     string `json:"status"` // open | fixed
+	Commit     string `json:"commit"`
+	WhatFails  string `json:"what_fails"`
+}
+
+func loadKnownFindings(path string) ([]*KnownFinding, error) {
+	b, err := os.ReadFile(path)
+	if err != nil {
+		if os.IsNotExist(err) {
+			return nil, nil
+		}
+		return nil, err
+	}
+	var kf struct {
+		Findings []*KnownFinding `json:"findings"`
+	}
+	if err := json.Unmarshal(b, &kf); err != nil {
+		return nil, err
+	}
+	return kf.Findings, nil
+}
+
+// lemmaObligations builds the obligations of a lemma (a pure SMT goal over
+// spec functions and contract-level facts).
+func (g *Gen) lemmaObligations(p *program, l *Lemma) (obs []*Oblig, err error) {
+	defer func() {
+		if r := recover(); r != nil {
+			switch e := r.(type) {
+			case unsupported:
+				err = fmt.Errorf("%s", string(e))
+			case specErr:
+				err = fmt.Errorf("lemma does not bind: %s", string(e))
+			default:
+				err = fmt.Errorf("internal error: %v\n%s", r, debug.Stack())
+			}
+		}
+	}()
+	g.cur = p
+	c := &Contract{Pkg: l.Pkg, Name: "lemma:" + l.Name, Mode: l.Mode, Pure: map[string]bool{}, FnSpecs: map[string]string{}, ModAll: true}
+	x := newFx(g, nil, c, 2)
+	x.usedSpecs = map[string]bool{}
+	x.entryMem = x.newMem("entry", nil)
+	x.curMem = x.entryMem
+	x.top0 = x.resolve(x.entryMem, "$top")
+	x.assume("(> " + x.top0 + " 3000000)")
+	x.curPC = "true"
+	pkg := g.typesPkg(l.Pkg)
+	vars := map[string]*Val{}
+	for _, v := range l.Vars {
+		t := x.parseTypeString(v.Type, pkg)
+		n := "|" + v.Name + "|"
+		x.declare(n, x.sortOf(t))
+		x.assume(x.valid(n, t, x.top0))
+		vars[v.Name] = &Val{T: t, S: n}
+	}
+	env := &specEnv{mem: x.entryMem, pkg: pkg, top: x.top0}
+	env.look = func(n string) *Val { return vars[n] }
+	env.old = env
+	for _, cl := range l.Assumes {
+		x.assume(x.evalBool(cl.E, env))
+	}
+	for k, cl := range l.Goals {
+		goal := x.evalBool(cl.E, env)
+		o := x.oblige("lemma", clauseLabel(cl, k), goal, "lemma "+l.Name+": "+cl.Src)
+		if o != nil {
+			o.Name = shortPkg(l.Pkg) + ".lemma:" + l.Name + "#" + clauseLabel(cl, k)
+			o.Src, o.Line = cl.Src, cl.Line
+		}
+	}
+	return x.obs, nil
+}
+
+func contains(ss []string, s string) bool {
+	for _, t := range ss {
+		if t == s {
+			return true
+		}
+	}
+	return false
+}
+
+type fnReport struct {
+	Function            string   `json:"function"`
+	File                string   `json:"contract_file"`
+	Mode                string   `json:"integer_mode"`
+	Tags                string   `json:"build_tags"`
+	Abstract            bool     `json:"abstracted_mode"`
+	Loops               int      `json:"loops"`
+	LoopsWithInvariant  int      `json:"loops_with_invariant"`
+	TerminationProved   bool     `json:"termination_proved"`
+	Obligations         int      `json:"obligations"`
+	Discharged          int      `json:"discharged"`
+	AbstractedConstructs []string `json:"abstracted_constructs,omitempty"`
+	CalleeContracts     []string `json:"callee_contracts_used,omitempty"`
+	Warnings            []string `json:"warnings,omitempty"`
+}
+
+func cmdCheck(args []string) int {
+	fs := flag.NewFlagSet("check", flag.ExitOnError)
+	repo := fs.String("repo", "/repo", "")
+	verif := fs.String("verif", "/verif", "")
+	prop := fs.String("property", "", "")
+	tier := fs.String("tier", "quick", "")
+	par := fs.Int("par", 12, "")
+	only := fs.String("only", "", "only contracts whose name contains this (debug; evidence not written)")
+	fs.Parse(args)
+	t0 := time.Now()
+	seed, _ := strconv.Atoi(os.Getenv("VERIF_SEED"))
+	broken := func(f string, a ...any) int {
+		fmt.Printf("CHECK-BROKEN property=%s: %s\n", *prop, fmt.Sprintf(f, a...))
+		return 2
+	}
+	g := NewGen(*repo)
+	if err := g.LoadContracts(*verif + "/specs"); err != nil {
+		// a contract file that no longer parses is a change to the contracts, not to the code
+		return broken("contracts do not parse: %v", err)
+	}
+	kfs, err := loadKnownFindings(*verif + "/known_findings.json")
+	if err != nil {
+		return broken("known_findings.json: %v", err)
+	}
+	var cs []*Contract
+	var trustedUsed []string
+	for _, cf := range g.files {
+		for _, c := range cf.Contracts {
+			if !contains(c.Props, *prop) {
+				continue
+			}
+			if *only != "" && !strings.Contains(c.Name, *only) {
+				continue
+			}
+			if c.Trusted {
+				trustedUsed = append(trustedUsed, c.Pkg+"."+c.Name+" (contract assumed, body not verified: "+strings.Join(c.Notes, "; ")+")")
+				continue
+			}
+			cs = append(cs, c)
+		}
+	}
+	var lemmas []*Lemma
+	for _, l := range g.lemmas {
+		if contains(l.Props, *prop) && (*only == "" || strings.Contains(l.Name, *only)) {
+			lemmas = append(lemmas, l)
+		}
+	}
+	if len(cs) == 0 && len(lemmas) == 0 {
+		return broken("no contracts are tagged with this property")
+	}
+	// group by tag set
+	byTags := map[string][]*Contract{}
+	pkgsByTags := map[string]map[string]bool{}
+	for _, c := range cs {
+		tags := "verif"
+		if c.Tags != "" {
+			tags += "," + c.Tags
+		}
+		byTags[tags] = append(byTags[tags], c)
+		if pkgsByTags[tags] == nil {
+			pkgsByTags[tags] = map[string]bool{}
+		}
+		pkgsByTags[tags][c.Pkg] = true
+	}
+	for _, l := range lemmas {
+		if pkgsByTags["verif"] == nil {
+			pkgsByTags["verif"] = map[string]bool{}
+		}
+		pkgsByTags["verif"][l.Pkg] = true
+	}
+	var all []*Oblig
+	var reports []*fnReport
+	fxs := map[string]*fx{}
+	assumptions := map[string]bool{}
+	var tagKeys []string
+	for k := range pkgsByTags {
+		tagKeys = append(tagKeys, k)
+	}
+	sort.Strings(tagKeys)
+	var loadSecs float64
+	for _, tags := range tagKeys {
+		tl := time.Now()
+		p, err := g.Load(tags, sortedKeys(pkgsByTags[tags]))
+		loadSecs += time.Since(tl).Seconds()
+		if err != nil {
+			return broken("cannot load the repository under tags %s: %v", tags, err)
+		}
+		for _, c := range byTags[tags] {
+			obs, x, _ := g.verifyContract(p, c)
+			all = append(all, obs...)
+			rep := &fnReport{Function: c.Pkg + "." + c.Name, File: strings.TrimPrefix(c.File, *repo+"/"), Mode: c.Mode.String(), Tags: tags, Abstract: c.Abstract}
+			if x != nil {
+				fxs[c.Pkg+"."+c.Name] = x
+				rep.Loops = len(x.loopList)
+				withInv := map[int]bool{}
+				for _, cl := range c.Invariants {
+					withInv[cl.Loop] = true
+				}
+				rep.LoopsWithInvariant = len(withInv)
+				dec := map[int]bool{}
+				for _, cl := range c.Decreases {
+					dec[cl.Loop] = true
+				}
+				rep.TerminationProved = len(dec) == len(x.loopList)
+				rep.AbstractedConstructs = sortedKeys(x.abstracted)
+				rep.CalleeContracts = sortedKeys(x.calls)
+				rep.Warnings = x.warnings
+				for a := range x.assumptions {
+					assumptions[a] = true
+				}
+				for tname := range x.trusted {
+					trustedUsed = append(trustedUsed, tname+" (assumed contract used at a call site)")
+				}
+			}
+			reports = append(reports, rep)
+		}
+		if tags == "verif" {
+			for _, l := range lemmas {
+				obs, err := g.lemmaObligations(p, l)
+				if err != nil {
+					all = append(all, &Oblig{Fn: l.Pkg + ".lemma:" + l.Name, Name: shortPkg(l.Pkg) + ".lemma:" + l.Name + "#binds", Kind: "binds", Status: "failed", Desc: err.Error(), Output: err.Error(), Expect: "unsat"})
+				}
+				all = append(all, obs...)
+			}
+		}
+	}
+	// discharge
+	work := filepath.Join(*verif, "work", *prop)
+	os.RemoveAll(work)
+	os.MkdirAll(work, 0o755)
+	var todo []*Oblig
+	for _, o := range all {
+		if o.Status == "" {
+			todo = append(todo, o)
+		}
+	}
+	q1, q2 := 4, 25
+	if *tier == "thorough" {
+		q1, q2 = 10, 120
+	}
+	ts := time.Now()
+	dischargeAll(todo, work, *par, q1, q2)
+	solveWall := time.Since(ts).Seconds()
+
+	// classify
+	var proofObs, canaries, failed, errored []*Oblig
+	for _, o := range all {
+		switch {
+		case o.Kind == "canary":
+			canaries = append(canaries, o)
+			if o.Status == "failed" {
+				errored = append(errored, o)
+			}
+			if o.Status == "error" {
+				errored = append(errored, o)
+			}
+		default:
+			proofObs = append(proofObs, o)
+			if o.Status == "error" {
+				errored = append(errored, o)
+			} else if o.Status != "proved" {
+				failed = append(failed, o)
+			}
+		}
+	}
+	if len(errored) > 0 {
+		for _, o := range errored {
+			fmt.Printf("  broken: %s status=%s %s\n", o.Name, o.Status, firstLines(o.Output, 2))
+		}
+		if len(errored) > 0 && errored[0].Kind == "canary" && errored[0].Status == "failed" {
+			return broken("vacuity canary %s came back unsat: the contract is contradictory", errored[0].Name)
+		}
+		return broken("solver error on %d obligations (first: %s)", len(errored), errored[0].Name)
+	}
+	// known findings
+	replayDir := filepath.Join(*verif, "replays", *prop)
+	os.RemoveAll(replayDir)
+	var violations, known []*Oblig
+	knownMsg := map[*Oblig]*KnownFinding{}
+	for _, o := range failed {
+		var match *KnownFinding
+		for _, kf := range kfs {
+			if kf.Status == "open" && kf.Property == *prop && obligationMatches(o.Name, kf.Obligation) {
+				match = kf
+			}
+		}
+		if match != nil && g.coveredByFinding(o, match, fxs, work) {
+			known = append(known, o)
+			knownMsg[o] = match
+			continue
+		}
+		violations = append(violations, o)
+	}
+	// output
+	sortedObs(violations)
+	printed := map[string]bool{}
+	for _, o := range known {
+		kf := knownMsg[o]
+		line := fmt.Sprintf("KNOWN-FINDING: property=%s %s (obligation %s)", *prop, kf.WhatFails, kf.Obligation)
+		if !printed[line] {
+			printed[line] = true
+			fmt.Println(line)
+		}
+	}
+	for _, o := range violations {
+		os.MkdirAll(replayDir, 0o755)
+		path, reproduced := g.writeReplay(o, replayDir, work, *repo, *verif, *prop)
+		suffix := ""
+		if !reproduced {
+			suffix = " no-failing-input-found"
+		}
+		fmt.Printf("VIOLATION property=%s replay=%s obligation=%s%s\n", *prop, path, o.Name, suffix)
+	}
+	// evidence
+	discharged := 0
+	var solverSecs float64
+	backends := map[string]int{}
+	var perOb []map[string]any
+	for _, o := range proofObs {
+		if o.Status == "proved" {
+			discharged++
+			backends[o.Backend]++
+		}
+		solverSecs += o.Secs
+		perOb = append(perOb, map[string]any{"name": o.Name, "status": o.Status, "backend": o.Backend, "solver_s": round3(o.Secs), "kind": o.Kind})
+	}
+	var samples []any
+	for _, o := range proofObs {
+		if (o.Kind == "post" || o.Kind == "lemma" || o.Kind == "inv") && len(samples) < 6 && o.fx != nil {
+			samples = append(samples, map[string]any{"obligation": o.Name, "description": o.Desc, "status": o.Status, "backend": o.Backend,
+				"goal_smt": truncate(o.Goal, 600), "path_condition": truncate(o.PC, 200), "assumptions_in_scope": o.NSteps})
+		}
+	}
+	if len(samples) == 0 && len(proofObs) > 0 {
+		o := proofObs[0]
+		samples = append(samples, map[string]any{"obligation": o.Name, "description": o.Desc, "status": o.Status})
+	}
+	vac := map[string]int{}
+	for _, o := range canaries {
+		vac[o.Status]++
+	}
+	sort.Strings(trustedUsed)
+	trustedUsed = uniq(trustedUsed)
+	trusted := append([]string{
+		"vcgen itself (SSA->SMT translation, memory model, spec evaluation) - mitigated by the must-fail selftest corpus, not eliminated",
+		"golang.org/x/tools/go/ssa v0.50.0 faithfully represents the compiled program; Go compiler and runtime",
+		"SMT solvers' unsat answers (z3 5.1.0, z3 4.8.12, cvc5 1.0.3 raced; first definitive answer wins)",
+	}, trustedUsed...)
+	asm := []string{
+		"sequential execution only (no goroutine interleavings)",
+		"64-bit int, little-endian host",
+		"termination only where a decreases clause is given",
+		"slice lengths, capacities and offsets are at most 2^62",
+	}
+	for a := range assumptions {
+		asm = append(asm, a)
+	}
+	sort.Strings(asm)
+	nKnownObs := len(known)
+	ev := map[string]any{
+		"property_id": *prop,
+		"tier":        *tier,
+		"seed":        seed,
+		"level":       "proof",
+		"coverage": map[string]any{
+			"obligations":               len(proofObs) - nKnownObs,
+			"discharged":                discharged,
+			"known_finding_obligations": nKnownObs,
+			"checker_cmd":               fmt.Sprintf("./check %s %s", *prop, *tier),
+			"trusted_base":              trusted,
+			"samples":                   samples,
+			"functions_under_contract":  reports,
+			"lemmas":                    lemmaNames(lemmas),
+			"backends":                  backends,
+			"per_obligation":            perOb,
+			"vacuity_canaries":          vac,
+			"solver_cpu_s":              round3(solverSecs),
+			"solver_wall_s":             round3(solveWall),
+			"load_ssa_s":                round3(loadSecs),
+			"explanation":               "obligations are generated from the go/ssa form of the functions in /repo's working tree against the //@ contracts in contracts_verif.go; each is an SMT query; 'discharged' counts unsat answers",
+		},
+		"assumptions": asm,
+		"wall_s":      round3(time.Since(t0).Seconds()),
+		"violations":  len(violations),
+	}
+	if *only == "" {
+		os.MkdirAll(filepath.Join(*verif, "evidence"), 0o755)
+		b, _ := json.MarshalIndent(ev, "", " ")
+		os.WriteFile(filepath.Join(*verif, "evidence", *prop+".json"), b, 0o644)
+	}
+	fmt.Printf("property=%s tier=%s functions=%d lemmas=%d obligations=%d discharged=%d known=%d violations=%d canaries=%v wall=%.1fs\n",
+		*prop, *tier, len(cs), len(lemmas), len(proofObs), discharged, nKnownObs, len(violations), vac, time.Since(t0).Seconds())
+	if len(violations) > 0 {
+		return 1
+	}
+	return 0
+}
+
+func lemmaNames(ls []*Lemma) []string {
+	var out []string
+	for _, l := range ls {
+		out = append(out, l.Pkg+"."+l.Name)
+	}
+	return out
+}
+
+func uniq(ss []string) []string {
+	var out []string
+	for i, s := range ss {
+		if i == 0 || s != ss[i-1] {
+			out = append(out, s)
+		}
+	}
+	return out
+}
+
+func truncate(s string, n int) string {
+	if len(s) > n {
+		return s[:n] + "..."
+	}
+	return s
+}
+
+func round3(f float64) float64 { return float64(int(f*1000+0.5)) / 1000 }
+
+// obligationMatches: known-finding entries name obligations without the
+// return-site suffix.
+func obligationMatches(name, pattern string) bool {
+	if name == pattern {
+		return true
+	}
+	if i := strings.Index(name, "@ret"); i >= 0 && name[:i] == pattern {
+		return true
+	}
+	return false
+}
+
+// coveredByFinding re-solves the failed obligation with the finding's witness
+// class excluded; only if it is then discharged is the failure attributed to
+// the known finding.
+func (g *Gen) coveredByFinding(o *Oblig, kf *KnownFinding, fxs map[string]*fx, work string) bool {
+	if o.fx == nil || kf.Exclude == "" {
+		return false
+	}
+	x := o.fx
+	e, err := ParseExpr(kf.Exclude)
+	if err != nil {
+		return false
+	}
+	var excl string
+	func() {
+		defer func() {
+			if r := recover(); r != nil {
+				excl = ""
+			}
+		}()
+		save := x.curMem
+		x.curMem = x.entryMem
+		excl = x.evalBool(e, x.paramEnv(x.entryMem))
+		x.curMem = save
+	}()
+	if excl == "" {
+		return false
+	}
+	o2 := *o
+	o2.Name = o.Name + "~excluding-known"
+	o2.Status, o2.Backend, o2.Output = "", "", ""
+	file := obFile(work, &o2)
+	os.WriteFile(file, []byte(o.Query(false, "(assert (not "+excl+"))")), 0o644)
+	for _, sp := range solvers {
+		res, _, _ := runSolver(nil2ctx(), sp, file, 20)
+		if res == "unsat" {
+			return true
+		}
+		if res == "sat" {
+			return false
+		}
+	}
+	return false
+}
